@@ -24,7 +24,7 @@ Hypothesis Hwf  : Forall (wf_dim (fun _ => True)) (dims t).        (* >= 2*order
 Hypothesis Hrow : nth (ndim_of t - 1) (strides_of t) 0 = 1.        (* the last dimension is contiguous (row-major storage) *)
 Hypothesis Hlen : length xs = length (dims t).
 Hypothesis Hsc  : searchcenters t xs = CFound cs.                  (* center lookup succeeded *)
-Hypothesis Hreg : Forall2 eval_regular (dims t) xs.            (* not exactly on a repeated knot at the upper end of full support (D17) *)
+Hypothesis Hreg : Forall2 eval_regular (dims t) xs.            (* the fully supported range is not the single point x (implied by knots[order] < knots[naxes]) *)
 
 (* The evaluated value is the sum over ALL stored coefficients of coefficient times the product over
    dimensions of the Cox–de Boor basis function of the stored order on the stored knots, right-continuous below
@@ -113,16 +113,48 @@ Proof.
   - reflexivity.
 Qed.
 
-(* the hypothesis [eval_regular] cannot be dropped: exactly on a repeated knot at the upper end of the fully
-   supported range the recurrence runs on a zero-width interval (0/0; on Qc division by zero yields 0, in IEEE
-   arithmetic NaN). This is finding D17 (known_findings.json), replayed on the real code by the check. *)
+(* D17 (fixed in /repo by stepping down over zero-width spans in searchcenters): exactly on a repeated knot at the
+   upper end of the fully supported range the lookup used to return the zero-width span naxes-1 = 5, on which the
+   recurrence computes 0/0 (on Qc division by zero yields 0, in IEEE arithmetic NaN). It now returns span 4, and the
+   evaluation is the tensor sum (left-continuous) there. *)
 Definition ex2_kn (i : Z) : Qc := qz (if i <? 6 then i else i - 1).   (* 0 1 2 3 4 5 5 6 7 *)
 Definition ex2_tab : @table QcA := @mkTable QcA [@mkDim QcA 2%nat 9 6 1 ex2_kn] (fun _ => qz 1).
-Theorem C01_refuted_without_regularity :
-  searchcenters ex2_tab [qz 5] = CFound [5] /\
+Theorem C01_refuted_old_center :
+  searchcenters ex2_tab [qz 5] = CFound [4] /\
   spline_spec ex2_tab [qz 5] [O] = qz 1 /\
-  ndsplineeval ex2_tab [qz 5] [5] 0 <> spline_spec ex2_tab [qz 5] [O].
-Proof. split; [vm_compute; reflexivity|]. split; [vm_compute; reflexivity|]. vm_compute. discriminate. Qed.
+  ndsplineeval ex2_tab [qz 5] [4] 0 = qz 1 /\
+  ndsplineeval ex2_tab [qz 5] [5] 0 <> spline_spec ex2_tab [qz 5] [O].       (* the center returned before the fix *)
+Proof. split; [vm_compute; reflexivity|]. split; [vm_compute; reflexivity|]. split; [vm_compute; reflexivity|]. vm_compute. discriminate. Qed.
+
+(* the remaining hypothesis [eval_regular] cannot be dropped: when the fully supported range itself has zero width
+   (knots[order] = ... = knots[naxes]) there is no span of positive width to step down to inside [order, naxes-1],
+   and at that single point the recurrence still runs on a zero-width span. *)
+Definition ex3_kn (i : Z) : Qc := qz (if i <? 2 then i else if i <? 6 then 2 else i - 3).   (* 0 1 2 2 2 2 3 4 *)
+Definition ex3_tab : @table QcA := @mkTable QcA [@mkDim QcA 2%nat 8 5 1 ex3_kn] (fun _ => qz 1).
+Theorem C01_refuted_without_regularity :
+  searchcenters ex3_tab [qz 2] = CFound [2] /\
+  ~ eval_regular (A := QcA) (@mkDim QcA 2%nat 8 5 1 ex3_kn) (qz 2) /\
+  ndsplineeval ex3_tab [qz 2] [2] 0 <> spline_spec ex3_tab [qz 2] [O].
+Proof.
+  split; [vm_compute; reflexivity|]. split.
+  - unfold eval_regular. intro H. assert (H1 : OFieldKit.lt (A := QcA) (qz 2) (qz 2)) by (apply H; vm_compute; reflexivity).
+    vm_compute in H1. discriminate.
+  - vm_compute. discriminate.
+Qed.
+
+(* a table-only sufficient condition: the fully supported range has positive width in every dimension *)
+Theorem C01_eval_is_tensor_sum_nondegenerate : forall (A : Arith) (F : OField A) (t : @table A) (xs : list (T A)) (cs : list Z),
+  dims t <> [] -> Forall (wf_dim (fun _ => True)) (dims t) -> nth (ndim_of t - 1) (strides_of t) 0 = 1 ->
+  length xs = length (dims t) -> searchcenters t xs = CFound cs ->
+  Forall full_support_nonempty (dims t) ->
+  ndsplineeval t xs cs 0 = spline_spec t xs (repeat O (ndim_of t)).
+Proof.
+  intros A F t xs cs Hne Hwf Hrow Hlen Hsc Hnd.
+  apply (eval_is_tensor_sum F t xs cs Hne Hwf Hrow Hlen Hsc).
+  clear - Hnd Hlen F. revert xs Hlen. induction Hnd as [|d ds Hd Hds IH]; intros [|x xs] Hlen; try discriminate; constructor.
+  - apply (nonempty_regular F). exact Hd.
+  - apply IH. cbn [length] in Hlen. lia.
+Qed.
 
 Print Assumptions C01_eval_is_tensor_sum.
 Print Assumptions C01_call_operator_is_tensor_sum.
@@ -131,4 +163,6 @@ Print Assumptions C01_padding_irrelevant.
 Print Assumptions C01_local_basis.
 Print Assumptions C01_core_is_block_sum.
 Print Assumptions C01_hypotheses_satisfiable.
+Print Assumptions C01_refuted_old_center.
 Print Assumptions C01_refuted_without_regularity.
+Print Assumptions C01_eval_is_tensor_sum_nondegenerate.
